@@ -2,7 +2,10 @@
 
 package cfg
 
-import "github.com/grafana/carbon-relay-ng/aggregator"
+import (
+	"github.com/BurntSushi/toml"
+	"github.com/grafana/carbon-relay-ng/aggregator"
+)
 
 // VerifC20Sections: several sections of the same kind in one configuration are independent: every
 // aggregation / rewriter / blacklist entry is built from its own section only (an option omitted in one
@@ -60,6 +63,63 @@ func VerifC20RewriterSections() {
 	if err == nil && len(tab2.Rewriters) == 2 {
 		c20RWCompare("sections/rw0", tab2.Rewriters[0], rws[0].Old, rws[0].New, rws[0].Not, rws[0].Max)
 		c20RWCompare("sections/rw1", tab2.Rewriters[1], rws[1].Old, rws[1].New, rws[1].Not, rws[1].Max)
+	}
+	verifCover("end")
+}
+
+// VerifC20WholeConfig: a configuration with one entry of every kind (an init command, a blacklist line, an
+// aggregation, a rewriter and a carbon route section) through InitTable, the function the program calls: every kind
+// is applied (none skipped, none applied twice), the entries carry their own settings, and an error in any one of
+// the five parts makes InitTable fail. Which part is broken (or none) is chosen by the solver.
+func VerifC20WholeConfig() {
+	aggregator.InitMetrics()
+	var c Config
+	c.Init.Cmds = []string{"addBlack prefix fromcmd"}
+	c.BlackList = []string{"sub fromlist"}
+	c.Aggregation = []Aggregation{{Function: "sum", Regex: "^a(.*)", Format: "o.$1", Interval: 10, Wait: 20}}
+	c.Rewriter = []Rewriter{{Old: "ab", New: "cd", Max: -1}}
+	c.Route = []Route{{Key: "r1", Type: "sendAllMatch", Prefix: "p", Destinations: []string{"127.0.0.1:2003 spool=false"}}}
+	broken := verifChoice("broken-part", 6) // 0 = none
+	switch broken {
+	case 1:
+		c.Init.Cmds = []string{"noSuchCommand x"}
+	case 2:
+		c.BlackList = []string{"nosuchmethod x"}
+	case 3:
+		c.Aggregation[0].Function = "nosuchfunction"
+	case 4:
+		c.Rewriter[0].Old = ""
+	case 5:
+		c.Route[0].Type = "nosuchtype"
+	}
+	tab := &verifC20Table{}
+	err := InitTable(tab, c, toml.MetaData{})
+	if broken != 0 {
+		verifAssert(err != nil, "whole-config/error-in-any-part-is-reported")
+		verifCover("end")
+		return
+	}
+	verifAssert(err == nil, "whole-config/accepted")
+	if err != nil {
+		return
+	}
+	verifAssert(len(tab.Blacklist) == 2, "whole-config/init-command-and-blacklist-line-both-applied-once")
+	verifAssert(len(tab.Aggregators) == 1, "whole-config/aggregation-applied-once")
+	verifAssert(len(tab.Rewriters) == 1, "whole-config/rewriter-applied-once")
+	verifAssert(len(tab.Routes) == 1, "whole-config/route-applied-once")
+	if len(tab.Blacklist) == 2 {
+		c20MatcherCompare("whole-config/init-command-first", *tab.Blacklist[0], "fromcmd", "", "", "", "", "")
+		c20MatcherCompare("whole-config/blacklist-line", *tab.Blacklist[1], "", "", "fromlist", "", "", "")
+	}
+	if len(tab.Aggregators) == 1 {
+		c20AggCompare("whole-config/agg", tab.Aggregators[0], "sum", "", "", "", "", "^a(.*)", "", "o.$1", false, 10, 20, false)
+	}
+	if len(tab.Rewriters) == 1 {
+		c20RWCompare("whole-config/rw", tab.Rewriters[0], "ab", "cd", "", -1)
+	}
+	if len(tab.Routes) == 1 {
+		snap := tab.Routes[0].Snapshot()
+		verifAssert(snap.Key == "r1" && snap.Type == "sendAllMatch" && snap.Matcher.Prefix == "p" && len(snap.Dests) == 1, "whole-config/route")
 	}
 	verifCover("end")
 }
